@@ -108,6 +108,9 @@ type Pool struct {
 	extraEnv []string
 	mu       sync.Mutex
 	idle     []*worker
+	// Retire, when set, is asked after every successful job whether the worker that produced
+	// this output must not be reused (its process state may be spoiled); it is then killed.
+	Retire func(out json.RawMessage) bool
 }
 
 func NewPool(nproc int, extraEnv []string) *Pool { return &Pool{n: nproc, extraEnv: extraEnv} }
@@ -216,6 +219,10 @@ func (p *Pool) Run(njobs int, job func(i int) interface{}, horizon time.Duration
 						handle(Result{Index: i, Status: "crash", Stderr: w.stderr.String()})
 						w = nil
 					} else {
+						if p.Retire != nil && p.Retire(json.RawMessage(r.line)) {
+							w.kill()
+							w = nil
+						}
 						handle(Result{Index: i, Status: "ok", Out: json.RawMessage(r.line)})
 					}
 				case <-time.After(horizon):
